@@ -25,6 +25,10 @@ func checkC10(p *Prog, r *Report) {
 		applyRetain(p, r, "R1", "spine", "FeatureLocal", "CleanRemoteEntityCaches", retainSpec{Field: f, Required: map[string]string{"device": "=Device", "entity": "=Entity"}})
 	}
 
+	r.Rule("R6", "teardown rebuilds the registries and the client-side caches atomically: the list a rebuilt list was computed from is read in the critical section that stores the result (no entry of another peer added meanwhile is lost)")
+	for _, f := range []string{F("SubscriptionManager.subscriptionEntries"), F("BindingManager.bindingEntries"), F("FeatureLocal.subscriptions"), F("FeatureLocal.bindings")} {
+		rebuildAtomic(p, ls, r, "R6", f, 2)
+	}
 	r.Rule("R2", "a function that drops all pending approvals of a peer stops their timers first, in the same critical section")
 	nDrop := 0
 	for _, fn := range ls.fns {
